@@ -37,6 +37,7 @@ def canon_value_ordered(v):
 def _patch_args(dumped, live):
     for d, a in zip(dumped, live):
         d["default_value"] = canon_value_ordered(a.default_value) if a.has_default_value else None
+        d["python_name"] = a.python_name
 
 
 def dump_full(schema):
@@ -143,6 +144,72 @@ def remap_value(v, tj, dump_types, enum_map):
     return v
 
 
+def rekey(v, tj, dump_types, keymap):
+    """Rename the keys of input-object values inside a default, following its type. keymap: {input type: {old: new}}"""
+    if v is None:
+        return None
+    if tj["k"] == "nonNull":
+        return rekey(v, tj["t"], dump_types, keymap)
+    if tj["k"] == "list":
+        return [rekey(x, tj["t"], dump_types, keymap) for x in v] if isinstance(v, list) else rekey(v, tj["t"], dump_types, keymap)
+    td = dump_types.get(tj["n"])
+    if td is not None and td["kind"] == "input" and isinstance(v, dict):
+        ft = {f["name"]: f["type"] for f in td["input_fields"]}
+        km = keymap.get(tj["n"], {})
+        return {km.get(k, k): (rekey(x, ft[k], dump_types, keymap) if k in ft else x) for k, x in v.items()}
+    return v
+
+
+def all_args(d):
+    for t in d["types"]:
+        for f in t["fields"]:
+            for a in f["args"]:
+                yield a
+        for a in t["input_fields"]:
+            yield a
+    for x in d["directives"]:
+        for a in x["args"]:
+            yield a
+
+
+def snake_input_fields(d):
+    """Rename every user input field `fN` to the snake-case `in_fN` (defaults re-keyed): the camel-case transform
+    then renames them to `inFN` while the coerced defaults stay keyed by the Python (snake) names."""
+    d = copy.deepcopy(d)
+    keymap = {t["name"]: {a["name"]: "in_" + a["name"] for a in t["input_fields"]}
+              for t in d["types"] if t["kind"] == "input" and not t["name"].startswith("__")}
+    old_types = {t["name"]: copy.deepcopy(t) for t in d["types"]}
+    for a in all_args(d):
+        if a["has_default"]:
+            a["default_value"] = rekey(a["default_value"], a["type"], old_types, keymap)
+    for t in d["types"]:
+        if t["name"] in keymap:
+            for a in t["input_fields"]:
+                a["name"] = keymap[t["name"]][a["name"]]
+    return d
+
+
+# strings a custom scalar may well hold that LOOK numeric (none is the repr of a float or a plain integer text:
+# those are printed as numbers on purpose, pinned by tests/test_utilities/test_ast_node_from_value.py)
+NUMERIC_LOOKING = ["007", "1e3", "1.50", "nan", " 7 ", "inf", "-007", "1E3", "+5", ".5", "Infinity", "1_0"]
+
+
+def add_numeric_scalar_defaults(d, rng):
+    """A custom scalar `Code` with numeric-looking STRING defaults, top level, in a list and nested (ledger I4/H3)."""
+    d = copy.deepcopy(d)
+    blank = {"interfaces": [], "fields": [], "members": [], "values": [], "input_fields": []}
+    d["types"].append(dict(blank, kind="scalar", name="Code", desc=None))
+    code = {"k": "named", "n": "Code"}
+    pick = lambda: rng.choice(NUMERIC_LOOKING)  # noqa
+    q = [t for t in d["types"] if t["name"] == d["query"]][0]
+    q["fields"].append({"name": "codes", "type": {"k": "named", "n": "Int"}, "deprecated": None, "desc": None, "args": [
+        {"name": "code", "type": code, "has_default": True, "default_value": pick(), "desc": None},
+        {"name": "codeList", "type": {"k": "list", "t": code}, "has_default": True, "default_value": [pick(), pick(), "plain"], "desc": None},
+        {"name": "nested", "type": {"k": "list", "t": {"k": "list", "t": {"k": "nonNull", "t": code}}}, "has_default": True,
+         "default_value": [[pick()], []], "desc": None}]})
+    return d
+
+
 def uncanon(v):
     if isinstance(v, dict) and "$float" in v:
         return float(v["$float"])
@@ -153,7 +220,7 @@ def uncanon(v):
     return v
 
 
-def build_code(d, enum_map=None, subclass=False):
+def build_code(d, enum_map=None, subclass=False, pynames=False):
     """
     Build a live schema *in code* from a dump description `d` (user types/directives only; built-ins by name).
     `enum_map`: {enum name: {value name: internal value}}; defaults are translated accordingly.
@@ -179,10 +246,19 @@ def build_code(d, enum_map=None, subclass=False):
     spec_dirs = {x.name for x in SPECIFIED_DIRECTIVES}
     dump_types = {t["name"]: t for t in d["types"]}
 
+    # pynames: every input field gets python_name = "py_" + name, and (as coercion would produce them) the declared
+    # input-object defaults are keyed by those Python names
+    pymap = ({t["name"]: {a["name"]: "py_" + a["name"] for a in t["input_fields"]} for t in d["types"] if t["kind"] == "input"}
+             if pynames else {})
+
     def mk_arg(cls, a):
         kw = {}
         if a["has_default"]:
             kw["default_value"] = remap_value(uncanon(a["default_value"]), a["type"], dump_types, enum_map)
+            if pynames:
+                kw["default_value"] = rekey(kw["default_value"], a["type"], dump_types, pymap)
+        if pynames and cls is InputField:
+            kw["python_name"] = "py_" + a["name"]
         return cls(a["name"], (lambda tj=a["type"]: ty_live(tj, reg, sub)), description=a["desc"], **kw)
 
     def mk_field(f):
@@ -493,8 +569,9 @@ def filled(v, t):
     if isinstance(t, InputObjectType) and isinstance(v, dict):
         out = {}
         for f in t.fields:
-            if f.name in v:
-                out[f.python_name] = filled(v[f.name], f.type)
+            key = f.python_name if f.python_name in v else f.name     # declared defaults are keyed by Python names
+            if key in v:
+                out[f.python_name] = filled(v[key], f.type)
             elif f.has_default_value:
                 out[f.python_name] = f.default_value
         return out
@@ -571,8 +648,9 @@ def shrink_default(live_type, value):
                         break
         elif isinstance(t, InputObjectType) and isinstance(v, dict):
             for f in t.fields:
-                if f.name in v and fails(f.type, v[f.name]):
-                    t, v, progress = f.type, v[f.name], True
+                k = f.python_name if f.python_name in v else f.name
+                if k in v and fails(f.type, v[k]):
+                    t, v, progress = f.type, v[k], True
                     break
     return t, v
 
@@ -592,6 +670,20 @@ def default_signature(t, v, reason):
                 for y in x:
                     walk(y)
         walk(v)
+        from py_gql.schema import ScalarType as _Sc
+        from py_gql.schema.scalars import SPECIFIED_SCALAR_TYPES as _SP
+        b = t
+        while isinstance(b, (ListType, NonNullType)):
+            b = b.type
+
+        def numeric_looking(x):
+            try:
+                float(x)
+                return True
+            except ValueError:
+                return False
+        if isinstance(b, _Sc) and b not in _SP and any(numeric_looking(x) for x in strs):
+            return "default-not-graphql:list:custom-scalar-numeric-string:" + reason
         feat = "non-bmp-string" if any(ord(c) > 0xFFFF for x in strs for c in x) else (
             "non-ascii-string" if any(ord(c) > 126 for x in strs for c in x) else "other")
         return "default-not-graphql:list:%s:%s" % (feat, reason)
